@@ -14,6 +14,11 @@ def pairs(vd):
     return [{"name": k, "value": vd.getVariableValue(k)} for k in vd.keys()]
 
 
+def reparsed(txt):
+    out, vd2 = outcome(lambda: CSSVariablesDeclaration(cssText=txt))
+    return pairs(vd2) if out == "ok" else [{"name": "#unparsable", "value": out}]
+
+
 def project(vd):
     n = vd.length
     txt = vd.cssText
@@ -21,7 +26,7 @@ def project(vd):
         "list": pairs(vd), "length": n, "keys": list(vd.keys()), "items": [vd.item(i) for i in range(n)],
         "iter": list(iter(vd)),
         "probes": [{"q": q, "has": unesc(q) in vd, "value": vd.getVariableValue(unesc(q))} for q in PROBES],
-        "reparsed": pairs(CSSVariablesDeclaration(cssText=txt)), "text": txt,
+        "reparsed": reparsed(txt), "text": txt,
     }
 
 
